@@ -12,8 +12,8 @@ everything.  Per complete schedule, on the event log (cache changes are logged b
 funnel, sends by the fake socket):
   snapshot   between an activate request and its `active` reply there is >= 1 update for every exported parameter newly in
              scope, and each carries a cache state that parameter held during that window
-  complete   every cache change made while the parameter is subscribed (after the `active` reply, before the start of the
-             request that unsubscribes it) is delivered
+  complete   every cache change whose notification ran completely while the parameter was subscribed (after the `active`
+             reply, finished before the arrival of the request that unsubscribes it) is delivered
   order      the updates of one parameter arrive in cache order and carry only states the cache held (a stale snapshot
              overtaking a fresh update is a violation: the last message would differ from the cache at quiescence)
   quiet      at the end the last message of every still subscribed parameter equals the node cache
@@ -247,7 +247,10 @@ def judge(case, sched, x, holder):
                                  f'update of {p} ({ev[3]}, cache change at {ci}) attempted on c1 at {ev[0]}, closed at {closed_idx}'))
         # complete: every cache change inside a must interval is delivered afterwards
         for ci, key in hist[p][1:]:
-            if any(a < ci < b for a, b in must[p]):
+            # the notification of this change has returned at log index di; a change whose notification was still under way
+            # when the unsubscribing request arrived is concurrent with it (may or may not be delivered)
+            di = next((i for i in range(ci + 1, len(log)) if log[i][0] == 'bcast-done' and log[i][1] == p), len(log))
+            if any(a < ci and di < b for a, b in must[p]):
                 # (an attempt that hit the socket already closed by the peer's disconnect counts: nothing can be delivered then)
                 if not any(ev[0] > ci and ev[3] == key for ev in ups) and \
                         not any(ev[1] == 'update' and ev[2] == p and ev[3] == key for ev in late):
